@@ -28,6 +28,8 @@ def repeat_case(args) -> dict:
                         kw = {"shuffle": sh}  # repeat left at its default
                         if par:
                             kw["file_parallelism"] = par
+                        if iface == "tf" and par == 2:
+                            kw["batch_size"] = 2
                         try:
                             got = D.with_alarm(
                                 120, lambda: [D.to_id(e) for e in D.take(
